@@ -368,7 +368,19 @@ fn decode_args(t: &mut Tape) -> ArgCase {
         let k = 1 + t.pick(6);
         let mut v = String::new();
         for _ in 0..k {
-            if t.chance(1, 2) { v.push_str(t.choose(&atoms)); } else { v.push_str(&gen::word(t)); }
+            match t.pick(8) {
+                0..=3 => v.push_str(t.choose(&atoms)),
+                4 => {
+                    // every C0 control character except the line breaks, DEL, and C1 controls
+                    let cp = [t.pick(32) as u32, 0x7f, 0x80 + t.pick(32) as u32][t.pick(3)];
+                    if cp != 0x0a && cp != 0x0d {
+                        if let Some(ch) = char::from_u32(cp) {
+                            v.push(ch);
+                        }
+                    }
+                }
+                _ => v.push_str(&gen::word(t)),
+            }
         }
         // pick a spelling that can express the value when there is one
         let mut sp = t.pick(5) as u8;
